@@ -17,6 +17,7 @@ TIERS = {
     "C07": T(1200, 15000),
     "C08": T(1200, 15000),
     "C09": T(900, 15000),
+    "C11": T(1500, 12000, global_lock_order=True),
     "C12": T(2500, 40000),
     "C13": T(1200, 12000),
     "C14": T(1500, 12000),
@@ -71,6 +72,10 @@ ASSUMPTIONS = {
     "C17": ["every result is read completely (all fields, all strings and arrays) after the later state changes and - in half of the cases - after bidib_stop, then freed exactly once",
             "Memcheck part: uninstrumented -O0 build (flavour plain) of the same property under valgrind; VALGRIND_CHECK_MEM_IS_DEFINED per field, never on padding",
             "snapshot and single getters are compared at a quiescent moment (receiver drained)"],
+    "C11": ["library lock operations are observed through the objcopy-redirected pthread_mutex_* / pthread_rwlock_* imports; file-static mutexes without symbol appear as unnamed_static_lock_<n>",
+            "a 'public call returned' check runs on the calling thread directly after the call; receiver / auto-flush / heartbeat threads are checked at quiescent points and after stop",
+            "blocking forever = wait-for cycle among the modelled locks, or a call exceeding the virtual-time budget (900 virtual seconds)",
+            "node-table notices are not part of the all-types sweep (their paths are exercised by C15 and by the thread cases)"],
     "C12": ["the stream is delivered through the read callback with generated poll gaps; only streams up to ~40 items / 700-byte oversized packets",
             "liveness = at least one of two well-formed probe packets sent after the stream is delivered (a packet directly behind line noise may be merged into the corrupted fragment)",
             "sanitizer-visible memory errors only (ASan + UBSan, G_SLICE=always-malloc)"],
